@@ -40,10 +40,11 @@ def comp_replay(sc, ins, outname):
 
 def functionals(rep, tier, timeout):
     ns = [1, 2] if tier == "quick" else [1, 2, 3]
-    for n in ns:
-        ss = surfaces(n)
+    # (every sum over surfaces is also posed with the surface list reversed: half model first, and full-span surface first)
+    for n, rev in [(n_, r_) for n_ in ns for r_ in ((False, True) if n_ >= 2 else (False,))]:
+        ss = surfaces(n)[::-1] if rev else surfaces(n)
         names = [s["name"] for s in ss]
-        tag = "%dsurf" % n
+        tag = "%dsurf%s" % (n, ", listed in reverse" if rev else "")
         # ---- TotalLiftDrag
         sc = SymComp("functionals.total_lift_drag", "TotalLiftDrag", surfaces=ss)
         rep.encode(type(sc.comp))
@@ -127,7 +128,7 @@ def functionals(rep, tier, timeout):
                         family=lambda ob: "CenterOfGravity: " + ob.meta["family"])
         # ---- MomentCoefficient (in the order given and in the reverse order: the symmetry convention of one surface must not
         # touch what the surfaces before it contributed)
-        for ss_m, tag_m in ([(ss, tag)] + ([(ss[::-1], tag + ", reverse order")] if n >= 2 else [])):
+        for ss_m, tag_m in ([(ss, tag)] + ([(ss[::-1], tag + ", reverse order")] if (n >= 2 and not rev) else [])):
             sc = SymComp("functionals.moment_coefficient", "MomentCoefficient", surfaces=ss_m)
             rep.encode(type(sc.comp))
             ins = sc.inputs()
